@@ -186,6 +186,161 @@ def evaluate(ctx, cases, impl, model):
     return corr, scorr, orc
 
 
+# ---------------------------------------------------------------------------------------------
+# in-stylesheet observation: the same matcher behind template match, xsl:key match and xsl:number count;
+# id()/key() heads (they need a stylesheet); the defining expression evaluated inside the same run
+
+XSL = "http://www.w3.org/1999/XSL/Transform"
+
+
+def xesc(s):
+    return s.replace("&", "&amp;").replace("<", "&lt;").replace('"', "&quot;")
+
+
+def sheet_for(ptext, use_key):
+    P = xesc(ptext)
+    kind = ("concat(substring('r',1,number(not(parent::node()))),substring('e',1,number(boolean(self::*))),"
+            "substring('t',1,number(boolean(self::text()))),substring('c',1,number(boolean(self::comment()))),"
+            "substring('p',1,number(boolean(self::processing-instruction()))),"
+            "substring('a',1,number(count(.|../@*)=count(../@*))))")
+    body = ['<xsl:stylesheet version="1.0" xmlns:xsl="%s"><xsl:output method="text"/>' % XSL,
+            '<xsl:key name="k" match="*" use="name()"/>']
+    if use_key:
+        body.append('<xsl:key name="m" match="%s" use="\'v\'"/>' % P)
+    body.append('<xsl:template match="/"><xsl:for-each select="/ | //node() | //@*"><xsl:variable name="n" select="."/>')
+    body.append('<xsl:value-of select="%s"/>' % kind)
+    body.append('<xsl:apply-templates select="." mode="m"/>')
+    body.append('<xsl:value-of select="number(boolean(ancestor-or-self::node()[count((%s)|$n) = count(%s)]))"/>' % (P, P))
+    if use_key:
+        body.append('<xsl:value-of select="number(count($n|key(\'m\',\'v\')) = count(key(\'m\',\'v\')))"/>')
+    else:
+        body.append('<xsl:text>-</xsl:text>')
+    body.append('<xsl:variable name="c"><xsl:number count="%s" level="single"/></xsl:variable>' % P)
+    body.append('<xsl:value-of select="number(string($c) != \'\')"/><xsl:text>;</xsl:text>')
+    body.append('</xsl:for-each></xsl:template>')
+    body.append('<xsl:template match="%s" mode="m" priority="9">1</xsl:template>' % P)
+    body.append('<xsl:template match="node()|@*|/" mode="m" priority="-9">0</xsl:template>')
+    body.append('</xsl:stylesheet>')
+    return "".join(body)
+
+
+def add_fn_head(r, path, nodes, enames):
+    """an id()/key() headed path: mostly short, plain steps so that matches are frequent"""
+    head, steps = path
+    if r.random() < 0.12:
+        text, ids = "id('zz')", []
+    else:
+        nm = r.choice(enames)
+        text, ids = "key('k','%s')" % nm, [i for i, (k, n, _) in enumerate(nodes) if k == "e" and n == nm]
+    if r.random() < 0.7:
+        steps = []
+        n = r.choice([0, 1, 1, 2, 2, 3])
+        for i in range(n):
+            axis = "a" if (i == n - 1 and r.random() < 0.25) else "c"
+            test = r.choice([("n", "x"), "w", "N"]) if axis == "a" else r.choice([("n", r.choice(enames)), ("n", r.choice(enames)), "w", "N", "T"])
+            preds = [patgen.gen_pred(r, enames)] if r.random() < 0.2 else []
+            steps.append((r.choice(["c", "d", "d"]), axis, test, preds, 0))
+    else:
+        steps = [s for s in steps]
+        if steps:
+            s0 = steps[0]
+            steps[0] = (r.choice(["c", "d"]) if head == "rel" else s0[0],) + tuple(s0[1:])
+    return (("fn", text, ids), steps)
+
+
+def sheet_cases(ctx, n_docs, per_doc):
+    r = ctx.rng
+    cases = []
+    for di in range(n_docs):
+        top = patgen.gen_doc(r)
+        nodes = patgen.arena(top)
+        enames = sorted({n for k, n, _ in nodes if k == "e"}) + ["a", "b"]
+        for pi in range(per_doc):
+            k = r.random()
+            shape = "guarded" if k < 0.6 else None if k < 0.8 else "k1415"
+            pat = patgen.gen_pattern(r, enames, shape)
+            has_fn = False
+            if r.random() < 0.4:
+                j = r.randrange(len(pat))
+                pat[j] = add_fn_head(r, pat[j], nodes, enames)
+                has_fn = True
+            cases.append({"id": "s%dp%d" % (di, pi), "top": top, "nodes": nodes, "pat": pat, "cls": "sheet-fn" if has_fn else "sheet",
+                          "use_key": not has_fn})
+    return cases
+
+
+def evaluate_sheets(ctx, cases, model):
+    from vlib import xsltrun
+    corr, scorr, orc = [], [], []
+    xs = [{"id": c["id"], "sheet": sheet_for(patgen.pattern_text(c["pat"]), c["use_key"]), "source": patgen.xml_of(c["top"])} for c in cases]
+    res = xsltrun.run(xs)
+    res_m = {}
+    if model:
+        rc_m, res_m, raw_m = core.run_lines_parallel(model, [model_line(c) for c in cases])
+    for c in cases:
+        ctx.count("shape:" + c["cls"])
+        r = res[c["id"]]
+        ptext = patgen.pattern_text(c["pat"])
+
+        def rep(what, n=None):
+            return ("# in-stylesheet observation (vlib/xsltrun.py): pattern %s\n# source: %s\n# stylesheet: %s\n# %s%s\n" % (
+                ptext, patgen.xml_of(c["top"]), sheet_for(ptext, c["use_key"]), what, "" if n is None else " (node %d)" % n))
+        if r[0] != "ok":
+            orc.append({"sheet": rep("the transformation failed: %r" % (r,)), "known": None, "size": len(c["nodes"])})
+            continue
+        recs = [x for x in r[1].decode("utf-8", "replace").split(";") if x]
+        vis = [i for i, (k, _, _) in enumerate(c["nodes"]) if k != "n"]
+        if len(recs) != len(vis) or any(rec[0] != c["nodes"][i][0] for rec, i in zip(recs, vis)):
+            ctx.broken.append("in-stylesheet walk does not visit the nodes in the generator's order: %s vs %s" % (
+                "".join(x[0] for x in recs), patgen.kinds_string(c["nodes"])))
+            continue
+        N = len(c["nodes"])
+        T, Sx, K, Nb = [False] * N, [False] * N, [None] * N, [False] * N
+        for rec, i in zip(recs, vis):
+            T[i], Sx[i], K[i], Nb[i] = rec[1] == "1", rec[2] == "1", (None if rec[3] == "-" else rec[3] == "1"), rec[4] == "1"
+        ctx.cov["evaluations"] += len(vis)
+        pm = parse_model(res_m[c["id"]]) if model and c["id"] in res_m else None
+        if model:
+            if pm is None:
+                corr.append({"pattern": ptext, "doc": patgen.xml_of(c["top"]), "node": None, "impl": "".join("1" if x else "0" for x in T), "model": res_m.get(c["id"])})
+            else:
+                wf, G, Mm, Sm = pm
+                ctx.cov["traces_validated_against_impl"] += len(vis)
+                for i in vis:
+                    if Mm[i] != T[i]:
+                        corr.append({"pattern": ptext, "doc": patgen.xml_of(c["top"]), "node": i, "where": "template match",
+                                     "impl": "".join("1" if x else "0" for x in T), "model": "".join("1" if x else "0" for x in Mm)})
+                        break
+                for i in vis:
+                    if Sm[i] != Sx[i]:
+                        scorr.append({"pattern": ptext, "doc": patgen.xml_of(c["top"]), "node": i, "where": "in-stylesheet expression",
+                                      "impl": "".join("1" if x else "0" for x in Sx), "model": "".join("1" if x else "0" for x in Sm)})
+                        break
+        for i in vis:
+            def known_for(actual):
+                if pm is None:
+                    return None
+                wf, G, Mm, Sm = pm
+                if G[0] == "0" and Mm[i] == actual and Sm[i] == Sx[i]:
+                    return K_G1_POS if actual and not Sx[i] else K_G1_NEG
+                return None
+            if T[i] != Sx[i]:
+                orc.append({"sheet": rep("template match=P %s for the node but the defining expression says %s" % ("fires" if T[i] else "does not fire", Sx[i]), i),
+                            "known": known_for(T[i]), "size": N})
+            if K[i] is not None and K[i] != Sx[i]:
+                orc.append({"sheet": rep("xsl:key match=P %s the node but the defining expression says %s" % ("indexes" if K[i] else "does not index", Sx[i]), i),
+                            "known": known_for(K[i]), "size": N})
+            # xsl:number level=single count=P prints something iff some ancestor-or-self matches P
+            j, anc = i, False
+            while j is not None:
+                anc = anc or T[j]
+                j = c["nodes"][j][2]
+            if Nb[i] != anc:
+                orc.append({"sheet": rep("xsl:number count=P level=single is %s although %s ancestor-or-self fires the template" % (
+                    "non-empty" if Nb[i] else "empty", "an" if anc else "no"), i), "known": None, "size": N})
+    return corr, scorr, orc
+
+
 def run(ctx):
     ctx.assumptions += [
         "documents are namespace-free and carry no xmlns declarations except the implicit xmlns:xml; node tests prefix:name / prefix:* are not modelled",
@@ -209,10 +364,14 @@ def run(ctx):
         return ctx.finish(LEVEL)
 
     known = {k["key"]: k for k in ctx.known.for_property("C09")}
-    n_docs, per_doc = (260, 12) if not ctx.thorough else (2500, 16)
+    n_docs, per_doc = (600, 12) if not ctx.thorough else (5000, 16)
     cases = corpus_cases() + make_cases(ctx, n_docs, per_doc)
     ctx.cov["samples"] = ["%s  on  %s" % (patgen.pattern_text(c["pat"]), patgen.xml_of(c["top"])[:120]) for c in cases[:3] + cases[40:49]]
     corr, scorr, orc = evaluate(ctx, cases, impl, model)
+    c3, s3, o3 = evaluate_sheets(ctx, sheet_cases(ctx, *((90, 8) if not ctx.thorough else (900, 10))), model)
+    corr += c3
+    scorr += s3
+    orc += o3
     new = [o for o in orc if not (o["known"] and o["known"] in known)]
     if (corr or scorr or not proved or not model) and not new and not ctx.thorough:
         ctx.escalated = True
@@ -240,11 +399,15 @@ def run(ctx):
         ctx.notes["spec_correspondence_mismatches"] = [{k: v for k, v in e.items() if k != "c"} for e in scorr[:20]]
     if new:
         def size(o):
+            if o.get("sheet"):
+                return (o.get("size", 0), len(o["sheet"]))
             return (len(o["case"]["nodes"]) if o.get("case") else 0, len(patgen.pattern_text(o["case"]["pat"])) if o.get("case") else 0)
         new.sort(key=size)
         txt = "# C09 oracle failures: XPath::getMatchScore disagrees with 'some ancestor-or-self context selects the node'\n"
         for o in new[:25]:
-            if o.get("case"):
+            if o.get("sheet"):
+                txt += o["sheet"]
+            elif o.get("case"):
                 txt += replay_text(o["case"], o.get("node"), o["what"])
             else:
                 txt += "# " + o["what"] + "\n"
